@@ -22,8 +22,9 @@ DF = [2.7939677238464355, 1.3969838619232178, 1.0, 0.5, 3.0, 0.1, 1e3, 2929687.5
 DT = [18.253611008, 1.4316557653333333, 1.0, 0.1, 1e-3]
 FCH1 = [0.0, 100.0, 1e6, 1.42040575e9, 6e9, 8.4e9 + 0.123]
 FCHANS_Q = [1, 2, 3, 4, 5, 7, 8, 15, 16, 17, 31, 32, 33, 64, 100]
-FCHANS_T = FCHANS_Q + [1024]
+FCHANS_T = FCHANS_Q + [128, 255, 1000, 1024, 4096]
 TCHANS = [1, 2, 3, 16, 17]
+TCHANS_T = TCHANS + [5, 32, 100]
 ROUTES = ['explicit', 'shape', 'data', 'from_data']
 STYLES = ['plain', 'hz_s', 'mhz_ms', 'ghz', 'pixel']
 
@@ -52,6 +53,12 @@ def _mk_frame(c):
     asc = c['asc']
     route = c['route']
     data = None
+    # deterministic process history: a frame with the same (fch1, df, sizes) but the OPPOSITE orientation is built first, so that anything memoised at module/class level on too coarse a key is in
+    # the same condition in every process
+    try:
+        stg.Frame(fchans=n, tchans=m, df=df, dt=dt, fch1=fch1, ascending=not asc, t_start=0.0)
+    except Exception:
+        pass
     if route in ('data', 'from_data'):
         data = np.arange(m * n, dtype=float).reshape(m, n)
     if route == 'explicit':
@@ -295,6 +302,12 @@ def case_backend(c):
     if c['with_data']:
         data = np.arange(k * n, dtype=float).reshape(k, n)
     try:
+        # same deterministic history as in _mk_frame (opposite orientation first)
+        stg.Frame.from_backend_params(fchans=n, obs_length=obs, sample_rate=sr, num_branches=P, fftlength=N,
+                                      int_factor=I, fch1=c['fch1'], ascending=not c['asc'])
+    except Exception:
+        pass
+    try:
         with contextlib.redirect_stdout(io.StringIO()):
             if data is not None:
                 fr = stg.Frame.from_backend_params(obs_length=obs, sample_rate=sr, num_branches=P, fftlength=N,
@@ -322,7 +335,7 @@ def case_backend(c):
 def _box(tier):
     fch = FCHANS_T if tier == 'thorough' else FCHANS_Q
     for n in fch:
-        for m in TCHANS:
+        for m in (TCHANS_T if tier == 'thorough' else TCHANS):
             for df in DF:
                 for fch1 in FCH1:
                     if fch1 / df > 2.0**36:
@@ -370,5 +383,5 @@ def run(ctx):
         assumptions=['fch1/df <= 2^36 (realistic ratios)', 'grid points compared within %d ulp of the largest '
                      'axis magnitude against exact rationals; exact half-channel ties not decided' % K_AXIS,
                      'twin injections compared with a conditioning-scaled tolerance (64 ulp(f)/width)'],
-        coverage_extra={'bounds': {'fchans': FCHANS_T if ctx.tier == 'thorough' else FCHANS_Q, 'tchans': TCHANS,
+        coverage_extra={'bounds': {'fchans': FCHANS_T if ctx.tier == 'thorough' else FCHANS_Q, 'tchans': TCHANS_T if ctx.tier == 'thorough' else TCHANS,
                                    'df': DF, 'dt': DT, 'fch1': FCH1, 'routes': ROUTES, 'styles': STYLES}})
